@@ -18,6 +18,21 @@ type M struct {
 	desc    string
 	pred    func(u *Unit, s *flow.Site) bool
 	incDefer bool
+	succ     *Success // ORDER/FOLLOW: evidence required for this alternative (overrides the rule default)
+}
+
+// Ok requires, when the matcher is used as a predecessor, that the call's result was tested as given.
+func (m M) Ok(s Success) M {
+	m.succ = &s
+	switch s {
+	case NilErr:
+		m.desc += " (error result tested nil)"
+	case IsTrue:
+		m.desc += " (result tested true)"
+	case IsFalse:
+		m.desc += " (result tested false)"
+	}
+	return m
 }
 
 func (m M) Desc() string { return m.desc }
